@@ -13,9 +13,12 @@ import json
 import os
 import shutil
 
+import sys
+
 import core
 import fpgen
 import pipe_gen as PG
+from props import c15_cov as COV
 from core import zlit, optlit, strlit, listlit, blit
 
 IMPORTS = ['From Coq Require Import QArith.', 'From E3FP Require Import Base.Prelude Model.Fprint Model.Pipeline Model.Batch.']
@@ -165,6 +168,9 @@ def run(ctx, only=None):
             'unreadable_inputs': 0, 'rejected_inputs': 0, 'unnamed_inputs': 0, 'params_file_runs': 0, 'file_mode_runs': 0,
             'subsets_stale': 0, 'subsets_crash': 0, 'half_written_molecules': 0, 'overwrite_runs': 0, 'all_iters_runs': 0,
             'conformer_runs': 0, 'db_and_files_runs': 0}
+    dist.update(COV.new_dist())
+    COV._CURSOR['files'] = 0
+    H = sys.modules[__name__]
 
     def add_case(key, expr, payload, model_out=None):
         payload = dict(payload, case_key=key)
@@ -263,17 +269,12 @@ def run(ctx, only=None):
                 pfail(key, 'database differs from the serial reference (as a multiset of named rows); requested %s/%s, ran as %s/%s' % (mode, nproc, eff[0], eff[1]), payload)
 
     # =========================================================================== B. file mode: stale files and crashed runs
-    def file_experiment(tag, n_good, all_iters, level, bad, sample, mode=('serial', None)):
-        d = os.path.join(ctx.workdir, 'files_%s' % tag)
-        inputs = make_inputs(ctx, d, n_good, bad, rng, confs=(2,))
-        bits, first = 1024, rng.choice([1, 2])
-        ext = rng.choice(['.fp.bz2', '.fp.gz', '.fp.pkl'])
-        loops = [direct_loop(i['mol'], i['name'], bits, level, all_iters, first, {}) if i['kind'] in LOADS else None for i in inputs]
-        files = [i['path'] for i in inputs]
+    def file_setup(inputs, level, all_iters, bits, first, fp_opts, ext, ref_base, tag='?'):
+        """The uninterrupted reference run of a file-mode experiment (serial, fresh directory) and what every later run of the
+        same batch is compared with."""
+        loops = COV.loops_of(H, inputs, level, bits, first, fp_opts, all_iters)
         levels = [level] if (level == -1 or not all_iters) else list(range(level + 1))
-        dist['unnamed_inputs'] += bad.count('unnamed')
-        dist['rejected_inputs'] += bad.count('rejected')
-        dist['unreadable_inputs'] += sum(1 for b in bad if b in ('garbage', 'empty', 'missing'))
+        files = [i['path'] for i in inputs]
 
         def out_paths(base):
             ps = []
@@ -282,27 +283,140 @@ def run(ctx, only=None):
                     for k in levels:
                         ps.append((base + ('_complete' if k == -1 else str(k)), i['name'] + ext))
             return ps
-        # reference: an uninterrupted run into a fresh directory
-        ref_base = os.path.join(d, 'ref', 'fp')
         os.makedirs(os.path.dirname(ref_base))
-        G.run(files, out_dir_base=ref_base, out_ext=ext, level=level, bits=bits, first=first, all_iters=all_iters, parallel_mode='serial')
+        G.run(files, out_dir_base=ref_base, out_ext=ext, level=level, bits=bits, first=first, all_iters=all_iters, parallel_mode='serial', **fp_opts)
         ref_paths = out_paths(ref_base)
         missing_ref = [p for p in ref_paths if not os.path.isfile(os.path.join(*p))]
         if missing_ref:
             pfail('files/%s/ref' % tag, 'an uninterrupted file-mode run did not write every level file of every readable input',
                   {'inputs': [(os.path.basename(i['path']), i['kind'], i['name']) for i in inputs], 'all_iters': all_iters, 'level': level,
+                   'bits': bits, 'first': first, 'fingerprinter_options': fp_opts,
                    'missing': [[p[0][len(ref_base):], p[1]] for p in missing_ref]})
         ref_content = {p[0][len(ref_base):] + '/' + p[1]: PG.read_content(os.path.join(*p)) if os.path.isfile(os.path.join(*p)) else None for p in ref_paths}
+        # the saved files hold what direct fingerprinting gives (the model's input), level by level
+        for i, lp in zip(inputs, loops):
+            if i['kind'] == 'good' and lp and lp[0] == 'ok':
+                for k, col in lp[1]:
+                    c = ref_content.get(('_complete' if k == -1 else str(k)) + '/' + i['name'] + ext)
+                    if c is not None and (c[0] != 'pickled' or multiset(c[1]) != multiset(col)):
+                        pfail('files/%s/ref' % tag, 'the file written for %r at level %s does not hold the fingerprints direct fingerprinting gives' % (i['name'], k),
+                              {'inputs': [(os.path.basename(x['path']), x['kind'], x['name']) for x in inputs], 'all_iters': all_iters, 'level': level,
+                               'bits': bits, 'first': first, 'fingerprinter_options': fp_opts, 'file_content_kind': c[0]})
+        return {'loops': loops, 'levels': levels, 'out_paths': out_paths, 'ref_base': ref_base, 'ref_paths': ref_paths, 'ref_content': ref_content,
+                'level': level, 'all_iters': all_iters, 'bits': bits, 'first': first, 'fp_opts': fp_opts, 'ext': ext, 'files': files, 'tag': tag}
+
+    def resume_run(key, exp, inputs, base, fs0, flavour, overwrite, run_mode, order_in, extra=None, foreign=(), root=None):
+        """One run of the batch over a directory that already holds fs0 = [(path, content)] (outputs of this batch and `foreign` files):
+        model case + the property on the implementation.  Returns the state of the directory afterwards as a new fs0 (None: the run raised)."""
+        level, all_iters, ext, loops, files = exp['level'], exp['all_iters'], exp['ext'], exp['loops'], exp['files']
+        paths = exp['out_paths'](base)
+        for p_, _ in fs0:
+            os.utime(os.path.join(*p_), ns=(OLD_NS, OLD_NS))              # any later write changes it
+        pre = [p_ for p_, _ in fs0]
+        before = {p_: sha(os.path.join(*p_)) for p_ in pre}
+        r = fpgen.attempt(lambda: G.run([files[i] for i in order_in], out_dir_base=base, out_ext=ext, level=level, bits=exp['bits'], first=exp['first'],
+                                        all_iters=all_iters, overwrite=overwrite, parallel_mode=run_mode[0], num_proc=run_mode[1], **exp['fp_opts']))
+        after, written, untouched = [], [], []
+        watched = paths + [p_ for p_ in foreign if p_ not in paths]
+        for p_ in watched:
+            fn = os.path.join(*p_)
+            if os.path.isfile(fn):
+                c = PG.read_content(fn)
+                after.append((p_, c))
+                if p_ in before and os.stat(fn).st_mtime_ns == OLD_NS and sha(fn) == before[p_]:
+                    untouched.append(p_)
+                else:
+                    written.append(p_)
+            else:
+                after.append((p_, None))
+        norm = set((os.path.normpath(w[0]), w[1]) for w in watched)
+        stray = [] if root is None else sorted(os.path.join(dp, f) for dp, _, fs_ in os.walk(root) for f in fs_ if (os.path.normpath(dp), f) not in norm)
+        # a half-written molecule: some but not all of its files existed before the run
+        by_mol = {}
+        for idx, p_ in enumerate(paths):
+            by_mol.setdefault(p_[1], []).append(idx)
+        half = sum(1 for lst in by_mol.values() if 0 < sum(1 for i_ in lst if paths[i_] in pre) < len(lst))
+        dist['half_written_molecules'] += half
+        cl = cfg_lit(level, all_iters, base, ext, overwrite)
+        il = listlit([COV.input_lit(inputs[i], loops[i], H) for i in order_in])
+        m = 'x_run %s %s %s false' % (cl, PG.fs_lit(fs0), il)
+        lg = 'x_log %s %s %s' % (cl, PG.fs_lit(fs0), il)
+        expr = ('fs_agrees (snd (%s)) %s && paths_subset %s (%s) && paths_subset (%s) %s && paths_disjoint %s (%s)'
+                % (m, PG.fs_obs_lit(after), listlit([PG.path_lit(p_) for p_ in written]), lg, lg, listlit([PG.path_lit(p_) for p_ in written]),
+                   listlit([PG.path_lit(p_) for p_ in untouched]), lg))
+        eff = effective_mode(*run_mode)
+        payload = {'inputs': [(os.path.basename(inputs[i]['path']), inputs[i]['kind'], inputs[i]['name']) for i in order_in], 'all_iters': all_iters,
+                   'level': level, 'bits': exp['bits'], 'first': exp['first'], 'fingerprinter_options': exp['fp_opts'], 'out_dir_base_tail': base[len(ctx.workdir):],
+                   'out_ext': ext, 'overwrite': overwrite, 'requested_mode': run_mode, 'actually_ran_as': eff,
+                   'pre_existing': [[p_[0][len(base):], p_[1], c[0]] for p_, c in fs0], 'half_written_molecules': half,
+                   'flavour': flavour, 'written': [[p_[0][len(base):], p_[1]] for p_ in written], 'untouched': [[p_[0][len(base):], p_[1]] for p_ in untouched],
+                   'after': [[p_[0][len(base):], p_[1], None if c is None else c[0]] for p_, c in after], 'run_outcome': r[0] if r[0] == 'ok' else r[1]}
+        payload.update(extra or {})
+        add_case(key, expr, payload, '(%s, snd (%s))' % (lg, m))
+        ctx.count(('files', key, tuple(pre), flavour, overwrite), nontrivial=0 < len([p_ for p_ in pre if p_ in paths]) < len(paths) or overwrite or flavour != 'stale')
+        dist['file_mode_runs'] += 1
+        dist['subsets_' + flavour] = dist.get('subsets_' + flavour, 0) + 1
+        dist['overwrite_runs'] += 1 if overwrite else 0
+        dist['all_iters_runs'] += 1 if all_iters else 0
+        dist['foreign_files_checked'] += len(foreign)
+        # -- the property on the implementation
+        if r[0] != 'ok':
+            pfail(key, 'run() raised in file mode', payload)
+            return None
+        probs = []
+        for idx, p_ in enumerate(paths):
+            c = dict(after).get(p_)
+            refc = exp['ref_content'][p_[0][len(base):] + '/' + p_[1]]
+            existed = p_ in pre
+            if not overwrite and existed and p_ in written:
+                probs.append('existing output %s was rewritten (content or mtime changed) by a no-overwrite run' % (p_,))
+            if refc is not None and c is None:
+                probs.append('output %s is still missing after the re-run' % (p_,))
+            if refc is not None and c is not None and (overwrite or not existed) and c != refc:
+                probs.append('output %s differs from the uninterrupted run' % (p_,))
+            if overwrite and refc is not None and p_ not in written:
+                probs.append('output %s was not regenerated by an overwrite run' % (p_,))
+        for p_ in foreign:
+            if p_ not in paths and p_ not in untouched:
+                probs.append('file %s, which is not an output of this batch, was modified or removed' % (p_,))
+        if stray:
+            probs.append('the run left files that are neither outputs of the batch nor there before: %s' % stray[:4])
+        if probs:
+            pfail(key, 'file-mode resume: ' + '; '.join(probs[:3]), dict(payload, problems=probs[:8]))
+        return [(p_, c) for p_, c in after if c is not None]
+
+    def file_experiment(tag, n_good, all_iters, level, bad, sample, mode=('serial', None), fp_opts=None, bits=1024, first=None, base_style='plain',
+                        foreign=False, rich=False, sequences=1):
+        d = os.path.join(ctx.workdir, 'files_%s' % tag)
+        if rich:
+            inputs = COV.make_batch(ctx, H, d, rng, n_good, specials=bad, confs=(1, 2, 3), cursor='files')
+        else:
+            inputs = make_inputs(ctx, d, n_good, bad, rng, confs=(2,))
+            for i in inputs:
+                i['loads'] = i['kind'] in LOADS
+        first = rng.choice([1, 2]) if first is None else first
+        fp_opts = fp_opts or {}
+        ext = rng.choice(['.fp.bz2', '.fp.gz', '.fp.pkl'])
+        dist['unnamed_inputs'] += sum(1 for i in inputs if i['kind'] == 'unnamed')
+        dist['rejected_inputs'] += sum(1 for i in inputs if i['kind'] in ('rejected', 'noatoms'))
+        dist['unreadable_inputs'] += sum(1 for i in inputs if not COV.loads(i, H))
+        if fp_opts or bits != 1024:
+            dist['file_mode_option_runs'] += 1
+        exp = file_setup(inputs, level, all_iters, bits, first, fp_opts, ext, os.path.join(d, 'ref', 'fp'), tag)
+        ref_paths = exp['ref_paths']
         all_idx = list(range(len(ref_paths)))
         enumerate_all = len(all_idx) <= (4 if ctx.quick else 6)
         if enumerate_all:
             subsets = [list(s_) for r_ in range(len(all_idx) + 1) for s_ in itertools.combinations(all_idx, r_)]
         else:
-            subsets = [[], all_idx] + [[i for i in all_idx if rng.random() < 0.5] for _ in range(sample)]
+            # every crash point of a serial run (the first k outputs, k = 0..n), then random subsets
+            subsets = [all_idx[:k] for k in range(len(all_idx) + 1)] + [[i for i in all_idx if rng.random() < 0.5] for _ in range(sample)]
+            dist['prefix_crash_points'] += len(all_idx) + 1
         for ui, (sub, flavour) in enumerate([(s_, f) for s_ in subsets for f in ('stale', 'crash')]):
-            base = os.path.join(d, 'r%d' % ui, 'fp')
+            sub_dir = os.path.join(d, 'r%d' % ui)
+            base = {'plain': os.path.join(sub_dir, 'fp'), 'slash': os.path.join(sub_dir, 'out') + '/', 'space': os.path.join(sub_dir, 'my out.v1', 'fp x-')}[base_style]
             os.makedirs(os.path.dirname(base))
-            paths = out_paths(base)
+            paths = exp['out_paths'](base)
             fs0 = []
             for idx in sub:
                 p_ = paths[idx]
@@ -316,88 +430,64 @@ def run(ctx, only=None):
                         continue
                     shutil.copyfile(os.path.join(*ref_paths[idx]), fn)
                     fs0.append((p_, PG.read_content(fn)))
-                os.utime(fn, ns=(OLD_NS, OLD_NS))
-            pre = [p_ for p_, _ in fs0]
-            before = {p_: (sha(os.path.join(*p_)), os.stat(os.path.join(*p_)).st_mtime_ns) for p_ in pre}
-            overwrite = flavour == 'stale' and ui % 7 == 3
-            run_mode = mode if ui % 5 else rng.choice([('threads', 2), ('processes', 2), ('serial', None)])
+            fgn = []
+            if foreign and paths:
+                # files that are not outputs of this batch: another molecule's file in a level directory, a file next to the level directories
+                for q in [(paths[0][0], 'OTHER-MOL' + ext), (paths[-1][0], paths[-1][1] + '.bak'), (os.path.dirname(base.rstrip('/')) or base, 'notes.txt')]:
+                    os.makedirs(q[0], exist_ok=True)
+                    open(os.path.join(*q), 'wb').write(PG.SENTINEL % (900 + len(fgn)))
+                    fs0.append((q, ('sentinel', 900 + len(fgn))))
+                    fgn.append(q)
+            if rich:
+                overwrite = ui % 3 == 2
+                run_mode = [('serial', None), ('threads', 2), ('processes', 2), ('threads', 3)][ui % 4] if ui % 2 else mode
+            else:
+                overwrite = flavour == 'stale' and ui % 7 == 3
+                run_mode = mode if ui % 5 else rng.choice([('threads', 2), ('processes', 2), ('serial', None)])
             order_in = list(range(len(inputs)))
             if ui % 3 == 1:
                 rng.shuffle(order_in)
-            r = fpgen.attempt(lambda: G.run([files[i] for i in order_in], out_dir_base=base, out_ext=ext, level=level, bits=bits, first=first,
-                                            all_iters=all_iters, overwrite=overwrite, parallel_mode=run_mode[0], num_proc=run_mode[1]))
-            after, written, untouched = [], [], []
-            for p_ in paths:
-                fn = os.path.join(*p_)
-                if os.path.isfile(fn):
-                    c = PG.read_content(fn)
-                    after.append((p_, c))
-                    if p_ in before and os.stat(fn).st_mtime_ns == OLD_NS and sha(fn) == before[p_][0]:
-                        untouched.append(p_)
-                    else:
-                        written.append(p_)
-                else:
-                    after.append((p_, None))
-            # a half-written molecule: some but not all of its files existed before the run
-            by_mol = {}
-            for idx, p_ in enumerate(paths):
-                by_mol.setdefault(p_[1], []).append(idx)
-            half = sum(1 for lst in by_mol.values() if 0 < sum(1 for i_ in lst if paths[i_] in pre) < len(lst))
-            dist['half_written_molecules'] += half
-            cl = cfg_lit(level, all_iters, base, ext, overwrite)
-            il = listlit([input_lit(inputs[i], loops[i]) for i in order_in])
-            m = 'x_run %s %s %s false' % (cl, PG.fs_lit(fs0), il)
-            lg = 'x_log %s %s %s' % (cl, PG.fs_lit(fs0), il)
-            expr = ('fs_agrees (snd (%s)) %s && paths_subset %s (%s) && paths_subset (%s) %s && paths_disjoint %s (%s)'
-                    % (m, PG.fs_obs_lit(after), listlit([PG.path_lit(p_) for p_ in written]), lg, lg, listlit([PG.path_lit(p_) for p_ in written]),
-                       listlit([PG.path_lit(p_) for p_ in untouched]), lg))
             key = 'files/%s/%d' % (tag, ui)
-            eff = effective_mode(*run_mode)
-            payload = {'inputs': [(os.path.basename(inputs[i]['path']), inputs[i]['kind'], inputs[i]['name']) for i in order_in], 'all_iters': all_iters,
-                       'level': level, 'out_ext': ext, 'overwrite': overwrite, 'requested_mode': run_mode, 'actually_ran_as': eff,
-                       'pre_existing': [[p_[0][len(base):], p_[1], c[0]] for p_, c in fs0], 'half_written_molecules': half,
-                       'flavour': flavour, 'written': [[p_[0][len(base):], p_[1]] for p_ in written], 'untouched': [[p_[0][len(base):], p_[1]] for p_ in untouched],
-                       'after': [[p_[0][len(base):], p_[1], None if c is None else c[0]] for p_, c in after], 'run_outcome': r[0] if r[0] == 'ok' else r[1]}
-            add_case(key, expr, payload, '(%s, snd (%s))' % (lg, m))
-            ctx.count(('files', tag, ui, tuple(sub), flavour, overwrite), nontrivial=0 < len(sub) < len(paths) or overwrite)
-            dist['file_mode_runs'] += 1
-            dist['subsets_' + flavour] += 1
-            dist['overwrite_runs'] += 1 if overwrite else 0
-            dist['all_iters_runs'] += 1 if all_iters else 0
-            # -- the property on the implementation
-            if r[0] != 'ok':
-                pfail(key, 'run() raised in file mode', payload)
-                continue
-            probs = []
-            for idx, p_ in enumerate(paths):
-                c = dict(after).get(p_)
-                refc = ref_content[p_[0][len(base):] + '/' + p_[1]]
-                existed = p_ in pre
-                if not overwrite and existed and p_ in written:
-                    probs.append('existing output %s was rewritten (content or mtime changed) by a no-overwrite run' % (p_,))
-                if refc is not None and c is None:
-                    probs.append('output %s is still missing after the re-run' % (p_,))
-                if refc is not None and c is not None and (overwrite or not existed or flavour == 'crash') and c != refc:
-                    probs.append('output %s differs from the uninterrupted run' % (p_,))
-                if overwrite and refc is not None and p_ not in written:
-                    probs.append('output %s was not regenerated by an overwrite run' % (p_,))
-            if probs:
-                pfail(key, 'file-mode resume: ' + '; '.join(probs[:3]), dict(payload, problems=probs[:8]))
+            state = resume_run(key, exp, inputs, base, fs0, flavour, overwrite, run_mode, order_in, foreign=fgn, root=sub_dir)
+            # run it again: nothing may change; then with overwrite: everything is regenerated; then once more without
+            if sequences and state is not None and ui % sequences == 0:
+                dist['resume_sequences'] += 1
+                for step, ow in (('again', False), ('overwrite', True), ('after-overwrite', False)):
+                    rng.shuffle(order_in)
+                    state = resume_run('%s/%s' % (key, step), exp, inputs, base, state, 're-run', ow,
+                                       rng.choice([('serial', None), ('threads', 2), ('processes', 2)]), list(order_in), foreign=fgn, root=sub_dir)
+                    if state is None:
+                        break
 
     if ctx.quick:
-        file_experiment('a', 2, True, 1, [], 0)                             # 4 files: all 16 subsets x {stale, crash}
-        file_experiment('b', 3, False, 2, ['garbage', 'unnamed'], 0)        # 3 files: all 8 subsets
-        file_experiment('c', 3, True, 2, ['missing', 'rejected'], 8)        # 9 files: sampled
-        file_experiment('d', 2, True, 1, ['empty'], 0, mode=('threads', 2))
-        file_experiment('e', 3, False, 2, [], 0, mode=('processes', 2))
+        file_experiment('a', 2, True, 1, [], 0, sequences=8)                    # 4 files: all 16 subsets x {stale, crash}
+        file_experiment('b', 3, False, 2, ['garbage', 'unnamed'], 0, sequences=5)   # 3 files: all 8 subsets
+        file_experiment('c', 3, True, 2, ['missing', 'rejected'], 8, sequences=0)   # 9 files: every prefix + sampled
+        file_experiment('d', 2, True, 1, ['empty'], 0, mode=('threads', 2), sequences=0)
+        file_experiment('e', 3, False, 2, [], 0, mode=('processes', 2), sequences=0)
+        # new: the _complete directory (level -1, with and without all_iters), level 0 with all_iters, options / lengths / first, base names, foreign files
+        file_experiment('f', 3, False, -1, ['trunc_mid2'], 0, rich=True, foreign=True, sequences=6)
+        file_experiment('g', 2, True, -1, ['noatoms'], 0, rich=True, fp_opts={'counts': True}, bits=-1, first=-1, base_style='slash', sequences=4)
+        file_experiment('h', 3, True, 0, ['badgz', 'unnamed'], 0, rich=True, fp_opts={'stereo': False, 'rdkit_invariants': True}, bits=2 ** 32, first=5,
+                        base_style='space', foreign=True, sequences=6)
+        file_experiment('i', 2, True, 1, ['dir'], 0, rich=True, fp_opts={'counts': True, 'radius_multiplier': 1.5}, bits=4096, first=-1, foreign=True,
+                        mode=('processes', 3), sequences=9)
     else:
-        file_experiment('a', 2, True, 1, [], 0)
-        file_experiment('a2', 2, True, 2, ['empty', 'rejected'], 0)         # 6 files: 64 subsets
-        file_experiment('b', 4, False, 2, ['garbage', 'unnamed'], 0)
-        file_experiment('b2', 4, False, -1, ['missing', 'empty'], 0)
-        file_experiment('c', 4, True, 2, ['missing', 'rejected'], 60)        # 12 files: sampled
-        file_experiment('d', 3, True, 1, [], 0, mode=('threads', 3))
-        file_experiment('e', 3, False, 3, ['garbage'], 0, mode=('processes', 2))
+        file_experiment('a', 2, True, 1, [], 0, sequences=6)
+        file_experiment('a2', 2, True, 2, ['empty', 'rejected'], 0, sequences=0)         # 6 files: 64 subsets
+        file_experiment('b', 4, False, 2, ['garbage', 'unnamed'], 0, sequences=7)
+        file_experiment('b2', 4, False, -1, ['missing', 'empty'], 0, sequences=0)
+        file_experiment('c', 4, True, 2, ['missing', 'rejected'], 60, sequences=11)        # 12 files: every prefix + sampled
+        file_experiment('d', 3, True, 1, [], 0, mode=('threads', 3), sequences=0)
+        file_experiment('e', 3, False, 3, ['garbage'], 0, mode=('processes', 2), sequences=0)
+        file_experiment('f', 4, False, -1, ['trunc_mid2', 'binary'], 0, rich=True, foreign=True, sequences=5)
+        file_experiment('g', 3, True, -1, ['noatoms'], 0, rich=True, fp_opts={'counts': True}, bits=-1, first=-1, base_style='slash', sequences=4)
+        file_experiment('h', 4, True, 0, ['badgz', 'unnamed'], 0, rich=True, fp_opts={'stereo': False, 'rdkit_invariants': True}, bits=2 ** 32, first=5,
+                        base_style='space', foreign=True, sequences=6)
+        file_experiment('i', 3, True, 1, ['dir', 'onlydollars'], 0, rich=True, fp_opts={'counts': True, 'radius_multiplier': 1.5}, bits=4096, first=-1,
+                        foreign=True, mode=('processes', 3), sequences=9)
+        file_experiment('j', 5, True, 2, ['badbz2', 'rejected'], 40, rich=True, fp_opts={'include_disconnected': False, 'exclude_floating': False},
+                        first=1, mode=('threads', 4), sequences=13)
 
     # =========================================================================== C. database AND output directory
     d = os.path.join(ctx.workdir, 'both')
@@ -429,7 +519,11 @@ def run(ctx, only=None):
                for k, i in enumerate(inputs) if k not in victims]
         if os.path.exists(dbf):
             os.remove(dbf)
-        G.run(files, db_file=dbf, out_dir_base=base, level=2, bits=1024, first=2, parallel_mode='serial')
+        r2 = fpgen.attempt(lambda: G.run(files, db_file=dbf, out_dir_base=base, level=2, bits=1024, first=2, parallel_mode='serial'))
+        if r2[0] != 'ok':
+            pfail('both/' + tag, 'run(db_file=..., out_dir_base=...) re-run after an interruption raised %s' % r2[1],
+                  {'inputs': [i['name'] for i in inputs], 'deleted_outputs_of': [inputs[v]['name'] for v in victims]})
+            return
         db2 = load_db(dbf)
         m = 'x_run %s %s %s true' % (cfg_lit(2, False, base, '.fp.bz2', False), PG.fs_lit(fs0), listlit([input_lit(i, l) for i, l in zip(inputs, loops)]))
         key = 'both/' + tag
@@ -506,6 +600,10 @@ def run(ctx, only=None):
         if not untouched_ok:
             pfail('cg/%d' % ci, 'generate_conformers(save=True, overwrite=False) touched an existing output file', payload)
 
+    # =========================================================================== E-K. coverage extension (props/c15_cov.py)
+    env = COV.Env(ctx=ctx, rng=rng, G=G, dist=dist, add_case=add_case, pfail=pfail, file_setup=file_setup, resume_run=resume_run)
+    COV.extend(env, H)
+
     if only is not None:
         cases = [c for c in cases if c[0] == only]
     for k in cases[:1] + [c for c in cases if c[0].startswith('files/')][3:5] + [c for c in cases if c[0].startswith('cg/')][:1]:
@@ -519,7 +617,18 @@ def run(ctx, only=None):
                             'file mode: every subset of the output files (<= 4 files quick, <= 6 thorough; sampled above) pre-created as stale sentinel files or as copies from a '
                             'finished run (a crashed run, including half-written all_iters molecules), with/without overwrite, both all_iters settings, SHA-256 + mtime_ns of EVERY '
                             'pre-existing file before/after; generate_conformers(save=True) with pre-existing files.  Non-trivial: a non-serial or shuffled db run or one with '
-                            'special inputs; a proper non-empty subset of pre-existing files or overwrite.')
+                            'special inputs; a proper non-empty subset of pre-existing files or overwrite.'
+                            '  EXTENSION (props/c15_cov.py): every fingerprinter option run() passes through x call form (keywords, positional, parameter file with all / some '
+                            'keys, ConfigParser object), bits -1, all_iters with a database only; batches with 0 / 1 / only unreadable inputs, a directory as input, a tuple, '
+                            'num_proc None and larger than the batch, every permutation of a 4-file batch, EVERY subset of a 4-5 file batch replaced by unreadable files of 10 kinds '
+                            '(truncated, wrong compression, binary, directory, ...), unnamed molecules in database mode, names with punctuation / white space / case twins, batches of '
+                            '8-14 files, main(), the same batch A-B-A in one process; file mode also for level -1 (with and without all_iters), level 0 + all_iters, counts / stereo / '
+                            'invariants / radius options, bits -1 / 2^32 / 4096, first -1 / 5, base names with a trailing slash or spaces, files that are not outputs of the batch '
+                            '(must stay untouched; nothing else may appear), every serial crash point for the sampled experiments, overwrite on crashed and stale states in every mode, '
+                            'and the sequence resume -> run again (nothing changes) -> overwrite (all regenerated) -> run again; REAL interruptions (forked child killed before its '
+                            '(k+1)-th write, every k serial, some k threads) then resume; database + directory runs in every mode with all_iters / options, their overwrite re-run '
+                            '(database complete again) and resumed re-run; generate_conformers with explicit out_file, name from the molecule, compress None / invalid, a failing '
+                            'generation; conformer.generate.run() over a SMILES file with pre-existing outputs in every mode.')
     ctx.coverage['input_distribution'] = dist
     ctx.assumptions += [
         'PARTIAL: the order in which a thread/process pool completes jobs and the atomicity of a file write are the runtime\'s; the theorems quantify over every '
